@@ -4,7 +4,7 @@
 K=${1:-3}
 V=$(cd "$(dirname "$0")/.." && pwd)
 export GOFLAGS=-mod=mod GOPROXY=off GOSUMDB=off GOTOOLCHAIN=local
-ls -d $V/seeded/*/ | sort > /tmp/parsweep-all.txt
+ls -d ${SEEDS_DIR:-$V/seeded}/*/ | sort > /tmp/parsweep-all.txt
 for i in $(seq 1 $K); do
   (
     rm -rf /tmp/vsw$i; cp -a $V /tmp/vsw$i
